@@ -90,4 +90,14 @@ def JClass (app : App) : Bool :=
 parser produces): register-only programs with branches, jumps, calls and `ret` (package R60c) -/
 def RegOnlyWf (app : App) : Bool := RegOnly app && app.instrs.all (labelOk app)
 
+/-- a store -/
+def isStoreType (t : Gen.InstructionType) : Bool := t == .Sb || t == .Sh || t == .Sw
+
+/-- an instruction of a straight-line program with loads (package R60d): no store, no branch or jump, no `ret` -/
+def ldInstr (i : Gen.Instr) : Bool :=
+  !isStoreType i.instructionType && !i.instructionType.IsBranch && !(i.instructionType == .Ret)
+
+/-- **straight-line programs with memory reads** (`lb`, `lh`, `lw` allowed; package R60d) -/
+def StraightLineLd (app : App) : Bool := app.instrs.all ldInstr
+
 end Model.Mvp60
